@@ -242,7 +242,101 @@ func c05Sig(clause string, hist []c05Op) string {
 	return clause + "|" + strings.Join(t, ">")
 }
 
+// c05Static: backend lists as configured in the YAML file (no membership change): every list over
+// a small universe of backend URLs in which the same host:port appears over UDP and over TCP and
+// two URLs differ only in the port; k consecutive dispatches over k backends reach each exactly once.
+func c05StaticEval(cur []string) (string, string) {
+	wire := func(u string) string { return strings.Replace(u, "://", ">", 1) }
+	y := "proxies:\n- name: svc.example.com\n  listens:\n  - address: 127.0.0.1\n    udp-port: 5060\n    backends:\n"
+	for _, u := range cur {
+		y += "    - " + u + "\n"
+	}
+	s := StartSim(y, SimOpts{})
+	defer s.Close()
+	ua := s.UDPPeer("127.0.0.9:5060")
+	for _, a := range []string{"127.0.1.1:7000", "127.0.1.2:7000", "127.0.1.2:7001"} {
+		s.UDPPeer(a)
+		s.TCPListen(a)
+	}
+	s.Run()
+	s.EmittedAll()
+	k := len(cur)
+	var seq []string
+	for i := 0; i < 2*k+1; i++ {
+		m := MsgSpec{Method: "OPTIONS", RURI: "sip:svc.example.com", Vias: []string{fmt.Sprintf("SIP/2.0/UDP 127.0.0.9:5060;branch=z9hG4bKs%d", i)},
+			From: "<sip:a@a.example.net>;tag=1", To: "<sip:svc.example.com>", CallID: fmt.Sprintf("s%d", i), CSeq: "1 OPTIONS"}.Build()
+		ua.Send("127.0.0.1:5060", m.Render())
+		s.Run()
+		var to []string
+		for _, p := range s.Emitted() {
+			to = append(to, p.Proto+">"+p.To)
+		}
+		if len(to) != 1 {
+			return "exactly-one", fmt.Sprintf("configured backends %v: dispatch %d produced %v", cur, i, to)
+		}
+		seq = append(seq, to[0])
+	}
+	if vd := s.Verdict(); vd != "" {
+		return "health", vd
+	}
+	want := map[string]bool{}
+	for _, u := range cur {
+		want[wire(u)] = true
+	}
+	for i := 0; i+k <= len(seq); i++ {
+		seen := map[string]bool{}
+		for _, a := range seq[i : i+k] {
+			if !want[a] {
+				return "unregistered-target", fmt.Sprintf("configured backends %v: a dispatch went to %s", cur, a)
+			}
+			seen[a] = true
+		}
+		if len(seen) != k {
+			return "rotation-window", fmt.Sprintf("configured backends %v: the dispatch sequence %v has a window of %d that misses a backend", cur, seq, k)
+		}
+	}
+	return "", ""
+}
+
+func c05Static(c *Ctx) {
+	universe := []string{"udp://127.0.1.1:7000", "tcp://127.0.1.1:7000", "udp://127.0.1.2:7000", "tcp://127.0.1.2:7001", "udp://127.0.1.2:7001"}
+	var idx int64
+	var rec func(cur []string)
+	rec = func(cur []string) {
+		if len(cur) >= 1 {
+			idx++
+			if c.Mine(idx) && !c.Expired() {
+				cl, detail := c05StaticEval(cur)
+				c.Res.Evaluations++
+				c.Res.Executions++
+				if len(cur) > 1 {
+					c.Res.Nontrivial++
+				}
+				if cl != "" {
+					c.Violate(cl+"|static|"+fmt.Sprint(len(cur)), cl, detail, c05Case{"static:" + strings.Join(cur, ","), 0, nil})
+				}
+			}
+		}
+		if len(cur) == 4 {
+			return
+		}
+		for _, u := range universe {
+			dup := false
+			for _, x := range cur {
+				if x == u {
+					dup = true
+				}
+			}
+			if !dup {
+				rec(append(append([]string(nil), cur...), u))
+			}
+		}
+	}
+	rec(nil)
+}
+
 func c05Run(c *Ctx) {
+	c05Static(c)
 	naddr := 4
 	if c.Thorough() {
 		naddr = 5
@@ -292,7 +386,7 @@ func c05Run(c *Ctx) {
 
 func init() {
 	addCheck(&Check{ID: "C05", Level: "model_checking",
-		Rule:     "explicit-state BFS to a FIXPOINT over the real RoundRobinBackend inside a running proxy: events add(a)/remove(a)/dispatch over 4 (thorough 5) udp and 3 (thorough 5) tcp backend addresses (one tcp backend is registered under a host name with capital letters, resolved by the simulated DNS); state = ordered backend list x cursor x map keys x proxy index; every reachable state is followed by a probe of 2k+1 consecutive dispatches; non-trivial = history longer than one event",
+		Rule:     "every configured backend list of 1-4 entries over 5 backend URLs (the same host:port over UDP and TCP, two URLs differing only in the port) started from YAML and probed with 2k+1 dispatches; explicit-state BFS to a FIXPOINT over the real RoundRobinBackend inside a running proxy: events add(a)/remove(a)/dispatch over 4 (thorough 5) udp and 3 (thorough 5) tcp backend addresses (one tcp backend is registered under a host name with capital letters, resolved by the simulated DNS); state = ordered backend list x cursor x map keys x proxy index; every reachable state is followed by a probe of 2k+1 consecutive dispatches; non-trivial = history longer than one event",
 		Assume:   []string{"the fixpoint covers operation sequences of any length over the address universe (finite reachable state space); concurrency half: see C05 race tier"},
 		Run:      c05Run,
 		Collapse: true,
@@ -300,6 +394,10 @@ func init() {
 		Replay: func(c *Ctx, raw json.RawMessage) string {
 			var cs c05Case
 			json.Unmarshal(raw, &cs)
+			if strings.HasPrefix(cs.Proto, "static:") {
+				cl, _ := c05StaticEval(strings.Split(strings.TrimPrefix(cs.Proto, "static:"), ","))
+				return cl
+			}
 			_, cl, _ := c05Exec(cs.Proto, cs.NAddr, cs.Hist, true)
 			return cl
 		}})
